@@ -200,13 +200,17 @@ type storeHistOpts struct {
 
 var storeCaseCounter int
 
+var oddDirSuffix = []string{"", "[v2]", "", " with space", "q?x", "", "star*", "ünï%41", "back\\slash", "{a,b}"}
+
 func runStoreHistory(r *rand.Rand, o storeHistOpts, t *Trace) *Case {
 	storeCaseCounter++
 	work := os.Getenv("VERIF_WORK")
 	if work == "" {
 		work = os.TempDir()
 	}
-	dir := filepath.Join(work, "stores", fmt.Sprintf("s%d_%d", os.Getpid(), storeCaseCounter))
+	// the directory is the caller's: its name may hold characters that mean something to a pattern matcher, a
+	// shell or a URL -- to the store it is just a name
+	dir := filepath.Join(work, "stores", fmt.Sprintf("s%d_%d", os.Getpid(), storeCaseCounter)+oddDirSuffix[storeCaseCounter%len(oddDirSuffix)])
 	os.RemoveAll(dir)
 	defer os.RemoveAll(dir)
 	cfg := storeCfg{dir: dir}
@@ -271,6 +275,8 @@ func runStoreHistory(r *rand.Rand, o storeHistOpts, t *Trace) *Case {
 		})
 	}
 	session := 1
+	var script []int        // forced next operations (values of x)
+	var removeTarget uint32 // the id the next remove takes
 	closed := false
 	failedFlushes := 0
 	for step := 0; step < o.nops; step++ {
@@ -285,6 +291,9 @@ func runStoreHistory(r *rand.Rand, o storeHistOpts, t *Trace) *Case {
 		}
 		if step < o.big {
 			x = 0
+		}
+		if len(script) > 0 { // the follow-up of an update-in-place: remove that id, flush, look
+			x, script = script[0], script[1:]
 		}
 		switch {
 		case x < 32: // add
@@ -312,6 +321,16 @@ func runStoreHistory(r *rand.Rand, o storeHistOpts, t *Trace) *Case {
 			sort.Strings(keys)
 			id := idOf(nextID)
 			nextID++
+			if len(live) > 0 && r.Intn(10) == 0 {
+				// AddWithID with an id that is live (an update without a Remove first): the new version is added
+				// on top of the old one; a later Remove must take both away, for good
+				id = live[r.Intn(len(live))]
+				nextID--
+				t.Stat("store.add_id_that_is_live")
+				if r.Intn(2) == 0 {
+					removeTarget, script = id, []int{35, 55, 45, 99}
+				}
+			}
 			e := st.AddWithID(id, vec, text, md)
 			code := errCodeStore(e)
 			hasText := text != ""
@@ -330,7 +349,16 @@ func runStoreHistory(r *rand.Rand, o storeHistOpts, t *Trace) *Case {
 				c.N(len(text)).N(code)
 			})
 			if code == 0 {
-				live = append(live, id)
+				already := false
+				for _, l := range live {
+					if l == id {
+						already = true
+					}
+				}
+				if !already {
+					live = append(live, id)
+				}
+
 				if vec != nil {
 					liveVec[id] = raw
 				}
@@ -344,6 +372,9 @@ func runStoreHistory(r *rand.Rand, o storeHistOpts, t *Trace) *Case {
 				id = live[r.Intn(len(live))]
 			} else {
 				id = uint32(9000 + r.Intn(3))
+			}
+			if removeTarget != 0 {
+				id, removeTarget = removeTarget, 0
 			}
 			e := st.Remove(id)
 			code := errCodeStore(e)
